@@ -397,8 +397,9 @@ def run(repo, rep):
         for n in ast.walk(f5.node):
             tg = []
             if isinstance(n, (ast.Assign, ast.AugAssign, ast.Delete)):
-                tg = [t for t in (n.targets if isinstance(n, (ast.Assign, ast.Delete)) else [n.target])
-                      if isinstance(t, ast.Attribute) and t.attr == '_data_set']
+                # (targets inside tuple / list / starred targets count: ``old, self._data_set = self._data_set, None``)
+                tg = [x for t in (n.targets if isinstance(n, (ast.Assign, ast.Delete)) else [n.target]) for x in ast.walk(t)
+                      if isinstance(x, ast.Attribute) and x.attr == '_data_set' and isinstance(x.ctx, (ast.Store, ast.Del))]
             elif isinstance(n, ast.Call) and norm(n.func) == 'setattr' and len(n.args) >= 2 and isinstance(n.args[1], ast.Constant) \
                     and n.args[1].value == '_data_set':
                 tg = [n]
